@@ -2,6 +2,7 @@
 C19 - emitted chain events mirror how the committed chain changed.
 -/
 import Neutrino.Lemmas.BlockMgr
+import Neutrino.Gen.BlockMgr
 namespace Neutrino.BM
 
 /-- **Connected events**: a successful filter-header write moves the store's tip and then the
@@ -560,6 +561,104 @@ theorem C19_replay (c : Cfg) (peers : List Peer) (es es' : List Ev) (h : Nat) :
   have hf : FInv s := C19_filter_tip_consistent c peers es
   rw [(C19_backlog_replay s h hf h0 hle).2]
   exact (C19_replay_events c s es' hf hal).1
+
+/-! ### inside one write: the in-memory tip is raised before the first event -/
+
+theorem cfRun_emits (endH : Nat) (log : List Nat) : ∀ (n start m : Nat) (x : Nat × Nat × Nat),
+    x ∈ cfRun endH m (cfEmits log start n) → x.2.2 = m ∧ start ≤ x.2.1 ∧ x.2.1 < start + n := by
+  intro n
+  induction n with
+  | zero => intro start m x hx; simp [cfEmits, cfRun] at hx
+  | succ k ih =>
+    intro start m x hx
+    simp only [cfEmits, cfRun, List.mem_cons] at hx
+    rcases hx with rfl | hx
+    · exact ⟨rfl, Nat.le_refl _, by show start < start + (k + 1); omega⟩
+    · obtain ⟨a, b, d⟩ := ih (start + 1) m x hx
+      exact ⟨a, by omega, by omega⟩
+
+/-- **Invariant over the fold, every batch**: with the order found in the source (tip first), at
+every emission of a write covering heights `start .. start+n-1 = endH` the in-memory filter tip is
+already `endH`, hence at or above the announced height - whatever the tip was before. -/
+theorem C19_tip_covers_emission (log : List Nat) (start n endH m0 : Nat) (hend : start + n = endH + 1)
+    (x : Nat × Nat × Nat) (hx : x ∈ cfRun endH m0 (cfSteps true log start n)) :
+    x.2.2 = endH ∧ x.2.1 ≤ x.2.2 := by
+  simp only [cfSteps, ↓reduceIte, cfRun] at hx
+  obtain ⟨a, _, d⟩ := cfRun_emits endH log n start endH x hx
+  exact ⟨a, by omega⟩
+
+/-- with the tip raised AFTER the notification loop an event is observable while the in-memory tip
+is still below it (the seeded regression) -/
+theorem C19_tip_after_counterexample :
+    (2, 2, 1) ∈ cfRun 3 1 (cfSteps false [0, 1, 2, 3] 2 2) := by decide
+
+theorem replay_held (v : List Nat) : ∀ (evs : List Ntfn),
+    (∀ e ∈ evs, ∃ i h f, e = .conn i h f ∧ h < v.length) → replay v evs = v := by
+  intro evs
+  induction evs with
+  | nil => intro _; rfl
+  | cons e es ih =>
+    intro h
+    obtain ⟨i, hh, f, he, hlt⟩ := h e (List.mem_cons_self ..)
+    simp only [replay, List.foldl_cons]
+    have : replay1 v e = v := by rw [he]; simp [replay1, hlt]
+    rw [this]
+    exact ih (fun e' he' => h e' (List.mem_cons_of_mem _ he'))
+
+theorem connRange_mem (log : List Nat) (f : Nat) : ∀ (n start : Nat) (e : Ntfn), e ∈ connRange log f start n →
+    ∃ i h, e = .conn i h f ∧ start ≤ h ∧ h < start + n := by
+  intro n
+  induction n with
+  | zero => intro start e he; simp [connRange] at he
+  | succ k ih =>
+    intro start e he
+    simp only [connRange, List.mem_cons] at he
+    rcases he with rfl | he
+    · exact ⟨_, start, rfl, Nat.le_refl _, by omega⟩
+    · obtain ⟨i, h, a, b, d⟩ := ih (start + 1) e he
+      exact ⟨i, h, a, by omega, by omega⟩
+
+/-- **A subscriber that registers in the middle of a batch** (after the `k`-th event of an aligned
+filter-header write, any `k`, backlog requested for any committed height `h > 0`): with the tip
+raised first, the backlog already covers the whole batch, the remaining live events are for blocks
+it holds and are skipped, and the replay gives exactly the committed chain - no block skipped. -/
+theorem C19_midbatch_subscriber (s : State) (stop n endH k h : Nat) (hf : FInv s)
+    (hi : idxOf s.log stop = some endH) (hn : n ≠ 0) (hal : endH = s.fst + n) (h0 : 0 < h) (hle : h ≤ s.fst) :
+    replay (replay ((committedS s).take (h + 1))
+        ((cfProbe true s stop n h).bl.map (fun nd => Ntfn.conn nd.id nd.height 0)))
+      ((cfWrite s stop n true).2.ntf.drop k) = committedS (cfWrite s stop n true).1 := by
+  obtain ⟨a, b, d, e⟩ := C19_connected s stop n endH hi hn (by omega)
+  obtain ⟨_, hf'⟩ := C19_replay_cfwrite s stop n endH hf hi hn hal
+  have hlt := (idxOf_some hi).1
+  have hcut : (committedS s).take (h + 1) = (committedS (cfWrite s stop n true).1).take (h + 1) := by
+    simp only [committedS, committedOf, a, d, List.take_take]
+    congr 1; omega
+  simp only [cfProbe, ↓reduceIte]
+  rw [hcut, (C19_backlog_replay (cfWrite s stop n true).1 h hf' h0 (by rw [a]; omega)).2]
+  apply replay_held
+  intro ev hev
+  have hev' := List.mem_of_mem_drop hev
+  rw [e] at hev'
+  obtain ⟨i, hh, he, _, hlt2⟩ := connRange_mem s.log endH n _ ev hev'
+  refine ⟨i, hh, endH, he, ?_⟩
+  simp only [committedS, committedOf, a, d, List.length_take]
+  omega
+
+/-- with the tip raised after the loop the same subscriber misses a committed block: stored
+`[0,1,2,3]`, filter tip 1, write of blocks 2 and 3, registration after the first event with
+height 1 - old-tip backlog is empty, the remaining live event is block 3, block 2 is never heard of -/
+theorem C19_midbatch_gap_counterexample :
+    let s : State := { log := [0, 1, 2, 3], fst := 1, ftip := ⟨1, 1⟩ }
+    replay (replay ((committedS s).take 2) ((cfProbe false s 3 2 1).bl.map (fun nd => Ntfn.conn nd.id nd.height 0)))
+      ((cfWrite s 3 2 true).2.ntf.drop 1) = [0, 1, 3] ∧ committedS (cfWrite s 3 2 true).1 = [0, 1, 2, 3] := by
+  decide
+
+/-- the statement order regenerated from blockmanager.go on this run: `writeCFHeadersMsg` writes the
+store, then raises `filterHeaderTip(+Hash)` under its mutex, then notifies; `rollBackToHeight`
+lowers the in-memory tip with the store -/
+theorem C19_source_facts :
+    Gen.BlockMgr.cfWriteBeforeNotify = true ∧ Gen.BlockMgr.cfTipBeforeNotify = true ∧
+    Gen.BlockMgr.rollbackLowersFilterTip = true := by decide
 
 /-! Non-vacuity -/
 example : (cfWrite { log := [0, 1, 2, 3] } 2 2 true).2.ntf = [.conn 1 1 2, .conn 2 2 2] := by decide
